@@ -12,6 +12,8 @@ package http
 //
 // line: RD zone_seconds tod_hours days variant = first_status second_answer nrecords nfinal staged_left
 //   second_answer: variant 0: parts the receiver says it holds (must be 1); variant 1: http status (200)
+//   variant 2 (no restart): the delivered file again in front of a NEW file in one request; nfinal = the new
+//   file arrived intact (C13: a part never gets a byte of its neighbour)
 
 import (
 	"crypto/md5"
@@ -139,6 +141,34 @@ func verifRedeliverCase(w interface{ WriteString(string) (int, error) }, tmp str
 		}
 		time.Sleep(5 * time.Millisecond)
 	}
+	if variant == 2 {
+		// the same version again IN FRONT OF a new file, in one request: the new file must arrive intact
+		// (variant 2; no restart: the receiver knows the first file from its memory)
+		g := &whFile{name: "dir/fresh.dat", seed: 91 + id, size: 200, beg: 0, end: 200, sec: fileTime.Unix()}
+		gc := make([]byte, g.size)
+		for i := range gc {
+			gc[i] = whByte(g.seed, int64(i))
+		}
+		g.hash = fmt.Sprintf("%x", md5.Sum(gc))
+		f2 := *f
+		c2 := whCase{level: []int{0, 6}[id%2], sep: 47, cut: -1, files: []*whFile{&f2, g}}
+		cl2 := &Client{SourceName: "src", TargetHost: u.Hostname(), TargetPort: port, Compression: c2.level, Timeout: 10 * time.Second, Protocol: ProtocolHTTP1}
+		_, err := cl2.Transmit(whBin(c2))
+		cl2.Destroy()
+		second := status(err)
+		gfinal := 0
+		for i := 0; i < 100; i++ {
+			if b, err := os.ReadFile(filepath.Join(finalDir, g.name)); err == nil && fmt.Sprintf("%x", md5.Sum(b)) == g.hash {
+				gfinal = 1
+				break
+			}
+			time.Sleep(5 * time.Millisecond)
+		}
+		w.WriteString(fmt.Sprintf("RD %d %d %d %d = %d %d %d %d %d\n", zone, tod, days, variant, first, second,
+			vrdCountRecords(logDir, f.name, f.hash), gfinal, 0))
+		st1.Stop(true)
+		return
+	}
 	st1.Stop(true)
 	// 2. it happened ten minutes after the file was written, `days` days ago
 	vrdMoveRecords(logDir, fileTime.Add(10*time.Minute))
@@ -192,7 +222,10 @@ func TestVerifRedeliver(t *testing.T) {
 	for _, zone := range []int{0, -8 * 3600, -3 * 3600, 9 * 3600, 13 * 3600, -11 * 3600} {
 		for _, tod := range []int{21, 3, 12} {
 			for _, days := range []int{3, 1} {
-				for variant := 0; variant < 2; variant++ {
+				for variant := 0; variant < 3; variant++ {
+					if variant == 2 && zone != 0 {
+						continue
+					}
 					id++
 					verifRedeliverCase(w, tmp, id, zone, tod, days, variant)
 				}
